@@ -15,6 +15,7 @@ import (
 
 	"github.com/0xrawsec/sod"
 	"github.com/0xrawsec/sod/verifshim/vfs"
+	"github.com/0xrawsec/sod/verifshim/vtime"
 	"github.com/google/uuid"
 )
 
@@ -79,6 +80,7 @@ type Test struct {
 	Ops      []Op     `json:"ops"`
 	Fields   []string `json:"fields,omitempty"`    // fields the sweep queries (default: those set in ops)
 	NoObs    bool     `json:"noobs,omitempty"`     // no automatic final sweep
+	VClock   bool     `json:"vclock,omitempty"`    // drive the background flusher with the virtual clock
 	CrashAll bool     `json:"crash_all,omitempty"` // enumerate the crash points of every mutating call
 }
 
@@ -320,14 +322,30 @@ func (r *Runner) open(create bool) string {
 	r.db = sod.Open(r.root)
 	r.hands = map[int]*sod.Search{}
 	r.lastMsg = ""
+	c := "ok"
 	if create {
 		err := r.db.Create(r.proto(), r.schema())
 		if err != nil {
 			r.lastMsg = err.Error()
 		}
-		return classify(err)
+		c = classify(err)
 	}
-	return "ok"
+	r.primeFlusher()
+	return c
+}
+
+// primeFlusher (virtual-clock tests): the flusher goroutine of an asynchronous collection is
+// started by the second schema access of a handle and takes its first decision at once.  Two
+// read-only accesses right after Open make it start while nothing is pending, so that from then
+// on it only acts when the driver advances the clock - which makes its schedule deterministic.
+func (r *Runner) primeFlusher() {
+	if !r.t.VClock {
+		return
+	}
+	r.db.Schema(r.proto())
+	if s, err := r.db.Schema(r.proto()); err == nil && s.AsyncWrites != nil && s.AsyncWrites.Enable {
+		settle(1)
+	}
 }
 
 // guard runs f, converting a panic into an event.
@@ -353,6 +371,10 @@ func RunTest(t *Test, out *json.Encoder, workdir string) {
 	hookLog = hookLog[:0]
 	r.ghost = append(r.ghost, uuid.NewString())
 	r.emit(ev{"ev": "reset", "id": t.ID})
+	if t.VClock {
+		vtime.Virtual(true)
+		defer r.drainFlushers()
+	}
 	var cc string
 	if r.guard("open", func() { cc = r.open(true) }) {
 		r.emit(ev{"ev": "end"})
@@ -490,6 +512,10 @@ func (r *Runner) step(op *Op) {
 		r.mutate(op)
 	case "args":
 		r.args(op)
+	case "tick":
+		r.tick(op)
+	case "switch":
+		r.switchCfg(op)
 	case "flush":
 		r.flush(op)
 	default:
@@ -652,8 +678,15 @@ func (r *Runner) reopen(op *Op) {
 	if op.Close {
 		c = classify(r.db.Close())
 	}
+	// what the directory holds once Close has returned
+	r.recs, r.recIdx = []Vals{}, map[string]int{}
+	dir := r.walk()
+	if r.t.VClock && op.Close {
+		r.retireFlushers()
+	}
+	recs := r.recs
 	cc := r.open(op.Create)
-	r.emit(ev{"ev": "reopen", "close": op.Close, "create": op.Create, "c": c, "cc": cc, "msg": r.lastMsg})
+	r.emit(ev{"ev": "reopen", "close": op.Close, "create": op.Create, "c": c, "cc": cc, "msg": r.lastMsg, "dir": dir, "recs": recs})
 }
 
 func (r *Runner) flush(op *Op) {
@@ -666,7 +699,9 @@ func (r *Runner) flush(op *Op) {
 	case "commit":
 		err = r.db.Commit(r.proto())
 	}
-	r.emit(ev{"ev": "flush", "what": op.What, "c": classify(err)})
+	r.recs, r.recIdx = []Vals{}, map[string]int{}
+	dir := r.walk()
+	r.emit(ev{"ev": "flush", "what": op.What, "c": classify(err), "dir": dir, "recs": r.recs})
 }
 
 // ---------------------------------------------------------------- probes and searches
@@ -829,4 +864,81 @@ func (r *Runner) probesFor(f string) []int {
 	}
 	sort.Ints(out)
 	return out
+}
+
+// ---------------------------------------------------------------- virtual clock (C10, C17)
+
+// settle waits (bounded, real time) until the flusher goroutines are parked in Sleep.
+func settle(want int) {
+	deadline := time.Now().Add(500 * time.Millisecond)
+	for time.Now().Before(deadline) {
+		n, _ := vtime.Sleepers()
+		if n >= want {
+			// parked; give a just-woken goroutine the time to take its next decision
+			return
+		}
+		time.Sleep(100 * time.Microsecond)
+	}
+}
+
+// tick advances the virtual clock by one poll period (100 ms) of the flusher and waits until the
+// flusher has taken its decision (flushed or not) and is parked again.  The directory walk of the
+// event is what tells whether it flushed.
+func (r *Runner) tick(op *Op) {
+	n := op.N
+	if n <= 0 {
+		n = 1
+	}
+	for i := 0; i < n; i++ {
+		if r.cfg.Async {
+			settle(1)
+		}
+		sl, p0 := vtime.Sleepers()
+		vtime.Advance(100 * time.Millisecond)
+		if sl > 0 {
+			vtime.WaitParked(p0+int64(sl)-1, 2*time.Second)
+			settle(sl)
+		}
+	}
+	r.recs, r.recIdx = []Vals{}, map[string]int{}
+	fl, _ := vtime.Sleepers()
+	e := ev{"ev": "tick", "n": n, "dir": r.walk(), "fl": fl}
+	e["recs"] = r.recs
+	r.emit(e)
+}
+
+// retireFlushers lets the flusher goroutines of closed handles run to completion
+// (they notice the cancelled context at their next due wake-up).
+func (r *Runner) retireFlushers() {
+	for i := 0; i < 200; i++ {
+		n, _ := vtime.Sleepers()
+		if n == 0 {
+			break
+		}
+		vtime.Advance(1000 * time.Hour)
+		time.Sleep(100 * time.Microsecond)
+	}
+}
+
+// drainFlushers: end of a virtual-clock test.
+func (r *Runner) drainFlushers() {
+	r.retireFlushers()
+	vtime.Virtual(false)
+}
+
+// switchCfg re-creates the collection with other cache / async settings (C17).
+func (r *Runner) switchCfg(op *Op) {
+	c := r.cfg
+	if op.Cfg != nil {
+		c.Cache, c.Async, c.Thr, c.TmoMs = op.Cfg.Cache, op.Cfg.Async, op.Cfg.Thr, op.Cfg.TmoMs
+	}
+	old := r.cfg
+	r.cfg = c
+	err := r.db.Create(r.proto(), r.schema())
+	cl := classify(err)
+	if err != nil {
+		r.cfg = old
+	}
+	r.primeFlusher()
+	r.emit(ev{"ev": "switch", "c": cl, "cfg": r.cfg})
 }
